@@ -3,6 +3,7 @@ import NodisVerif.Proofs.C08Tie
 import NodisVerif.Proofs.C16Handlers
 import NodisVerif.Proofs.GateInv
 import NodisVerif.Proofs.GateProgExamples
+import NodisVerif.Proofs.GateProgGone
 /-
   C08 — MULTI/EXEC runs the queue exactly once, in order, isolated — or not at all.
 
@@ -589,10 +590,10 @@ theorem after_exec_discard_state_and_queue_clean (sch : List (GateProg.Tid × Ga
   generalize (GateProg.run {} sch).1.sh.conn g = cs at *
   cases h : l.pc <;> simp [h, commandOver] at hpc <;> simp_all [GateProg.doneOk]
 
-/-- PARTIAL (watches): `unwatchAll` empties the connection's own watch map in its one critical section (pc u2), on the
-    way out of EXEC and DISCARD alike.  What is missing for "its watches are gone" in every later configuration: that no
-    other goroutine's signal re-creates an entry, i.e. the registry invariant `t ∈ watchedKeys[k] → k ∈ t.WatchKeys`
-    with duplicate-free watcher lists (then `unwatchLoop` removes `t` from every list it is in).  Not proved here. -/
+/-- The step itself: `unwatchAll` empties the connection's own watch map in its one critical section (pc u2), on the
+    way out of EXEC and DISCARD alike.  (This was the partial form; that the map stays empty in every later
+    configuration whatever the other goroutines signal is `after_exec_discard_clean` below, which rests on the
+    registry invariant `watch_registry_invariant`.) -/
 theorem after_exec_discard_watches_gone_partial {s : GateProg.Shared} {t : GateProg.Tid} {l : GateProg.Loc}
     {ch : GateProg.Choice} {s' l' evs} (hpc : l.pc = .u2) (hs : GateProg.tstep s t l ch = some (s', l', evs)) :
     (s'.conn t).watch = [] ∧ l'.pc = .u3 ∧ evs = [] := by
@@ -600,6 +601,32 @@ theorem after_exec_discard_watches_gone_partial {s : GateProg.Shared} {t : GateP
   injection hs with hs; injection hs with h1 h2; injection h2 with h2 h3
   subst h1 h2 h3
   simp
+
+/-- After EXEC / DISCARD the connection is clean on every path - State == MultiNone, no queued command, no watched
+    key - and it is in no key's watcher list, so that no later write of anybody can mark a future transaction of this
+    connection: in every reachable configuration in which the handler of EXEC / DISCARD has returned (until the next
+    command is read), under every schedule of the other goroutines.  (The full form of
+    `after_exec_discard_watches_gone_partial`: Proofs/GateProgWatch.lean proves the registry invariant.) -/
+theorem after_exec_discard_clean (sch : List (GateProg.Tid × GateProg.Choice)) (g : GateProg.Tid)
+    (hc : GateProg.isExecOrDiscard ((GateProg.run {} sch).1.loc g).cmd = true)
+    (hpc : commandOver ((GateProg.run {} sch).1.loc g).pc = true) :
+    ((GateProg.run {} sch).1.sh.conn g).clean = true ∧
+    ∀ k, g ∉ GateProg.regOf (GateProg.run {} sch).1.sh.registry k := by
+  obtain ⟨hsq, hq⟩ := after_exec_discard_state_and_queue_clean sch g hc hpc
+  have hg := GateProg.reach_gone sch
+  have hw : ((GateProg.run {} sch).1.sh.conn g).watch = [] := by
+    have := hg.g g
+    generalize (GateProg.run {} sch).1.loc g = l at *
+    generalize (GateProg.run {} sch).1.sh.conn g = cs at *
+    cases h : l.pc <;> simp [h, commandOver] at hpc <;> simp_all [GateProg.goneOk]
+  refine ⟨by simp [GateProg.ConnSt.clean, hsq, hq, hw], fun k hm => ?_⟩
+  have := hg.w.j1 k g hm
+  rw [hw] at this; cases this
+
+/-- the watch registry invariant in every reachable configuration: a connection is in a key's watcher list only if it
+    has a flag for the key, and no list has duplicates -/
+theorem watch_registry_invariant (sch : List (GateProg.Tid × GateProg.Choice)) :
+    GateProg.WInv (GateProg.run {} sch).1.sh := (GateProg.reach_gone sch).w
 
 open GateProg.Ex in
 example : ∃ gs, Gate.run {} (GateProg.run {} (schedToCheck ++ schedRest)).2 = some gs ∧ gs.holders = [] ∧ gs.clients = [1] :=
